@@ -344,12 +344,12 @@ def first_problem(lines, impl_out, model_out, rc):
 def shrink(hexe, mexe, lines, deadline):
     """ddmin over the operation lines (the `new` line stays); keeps `some problem exists`."""
     def bad(ls):
-        rc, io, _ = run_script(hexe, ls, 60)
-        rc2, mo, _ = run_script(mexe, ls, 60)
+        rc, io, _ = run_script(hexe, ls, 5)
+        rc2, mo, _ = run_script(mexe, ls, 20)
         return first_problem(ls, io, mo, rc) is not None
     head, ops = lines[0], lines[1:]
     # cut after the first problem first
-    rc, io, _ = run_script(hexe, lines, 120)
+    rc, io, _ = run_script(hexe, lines, 20)
     _, mo, _ = run_script(mexe, lines, 120)
     fp = first_problem(lines, io, mo, rc)
     if fp:
@@ -373,13 +373,13 @@ def shrink(hexe, mexe, lines, deadline):
 def report_problem(rep, P, hexe, mexe, lines, tag):
     """A mismatch or an oracle complaint on history `lines`: shrink, then decide between a violation of
     the property (oracle objects to the implementation) and model drift."""
-    small = shrink(hexe, mexe, lines, time.time() + 60)
-    rc, io, err = run_script(hexe, small, 60)
+    small = shrink(hexe, mexe, lines, time.time() + 25)
+    rc, io, err = run_script(hexe, small, 10)
     _, mo, _ = run_script(mexe, small, 60)
     fp = first_problem(small, io, mo, rc)
     if fp is None:           # shrinking lost it (should not happen): report the original
         small = lines
-        rc, io, err = run_script(hexe, small, 120); _, mo, _ = run_script(mexe, small, 120)
+        rc, io, err = run_script(hexe, small, 20); _, mo, _ = run_script(mexe, small, 120)
         fp = first_problem(small, io, mo, rc)
         if fp is None:
             return
@@ -428,7 +428,7 @@ def correspond(rep, tier, P, state):
         for _ in range(3 if quick else 25):
             H.append(("chain", gen_chain(rng, P, mode, rng.choice([2, 3, 5, 9, 17]))))
     growth = [(0, 2700), (4, 1400), (3, 400), (1, 170), (2, 80), (5, 330), (6, 170)] if quick else \
-             [(0, 90000), (4, 45000), (4, 21000), (3, 11000), (1, 2600), (2, 700), (5, 5200), (6, 1300), (0, 2600)]
+             [(0, 45000), (4, 21000), (4, 11000), (3, 5200), (1, 2600), (2, 700), (5, 5200), (6, 1300), (0, 2600)]
     for mode, upto in growth:
         H.append(("growth", gen_growth(rng, P, mode, upto, 0.5 if upto < 20000 else 0.2)))
     for mode in MODES:
@@ -437,7 +437,7 @@ def correspond(rep, tier, P, state):
                                            rng.choice([30, 200, 900]) if quick else rng.choice([50, 500, 5000]))))
     # one process per side for everything
     script = [l for _, h in H for l in h]
-    rc, io, err = run_script(hexe, script, 1500)
+    rc, io, err = run_script(hexe, script, 200 if quick else 1500)
     rc2, mo, err2 = run_script(mexe, script, 1500)
     state["ran"] = True
     nops = len(script)
